@@ -89,14 +89,6 @@ Section PASSES.
     | _, _ => Node KConstant "" text l (Some (true, CNum (tyname_of_nty t) t v)) []
     end.
 
-  Definition conversion_target (name : string) : option (string * nty) :=
-    if String.eqb name "double" then Some ("double", TF F64)
-    else if String.eqb name "int" then Some ("int", TI 32 true)
-    else if String.eqb name "float" then Some ("float", TF F32)
-    else if String.eqb name "long" then Some ("long", TI 64 true)
-    else if String.eqb name "size_t" then Some ("ulong", TI 64 false)
-    else None.
-
   Definition pass_constant_fold (n : ast) : ast :=
     match n with
     | Node KPrefix _ text l _ [a] =>
@@ -237,6 +229,23 @@ Section PASSES.
     | _ => n
     end.
 
+  (* a constant operation whose C++ result is undefined (signed overflow, oversized shift): the implementation folds
+     whatever its compiler produced; the model cannot predict the tree and says so *)
+  Definition ub_site (n : ast) : bool :=
+    match n with
+    | Node KBinary _ text _ _ [a; b] =>
+        match const_num a, const_num b with
+        | Some (_, t1, v1), Some (_, t2, v2) => match n_bin ops text false t1 v1 t2 v2 with Some (UB, _) => true | _ => false end
+        | _, _ => false
+        end
+    | Node KPrefix _ text _ _ [a] =>
+        match const_num a with
+        | Some (_, t, v) => match n_un ops text false t v with Some (UB, _) => true | _ => false end
+        | None => false
+        end
+    | _ => false
+    end.
+
   Definition pass_by_name (name : string) : ast -> ast :=
     if String.eqb name "Partial_Fold" then pass_partial_fold
     else if String.eqb name "Unused_Return" then pass_unused_return
@@ -271,4 +280,7 @@ Section PASSES.
                   end in
         optimize_node (Node k cls text l' c ch')
     end.
+
+  Fixpoint has_ub_site (n : ast) : bool :=
+    ub_site n || (let 'Node _ _ _ _ _ ch := n in existsb has_ub_site ch).
 End PASSES.
